@@ -59,10 +59,10 @@ func errorExit(b *ssa.BasicBlock) bool {
 	for hops := 0; hops < 4 && b != nil; hops++ {
 		switch t := b.Instrs[len(b.Instrs)-1].(type) {
 		case *ssa.Return:
-			if len(t.Results) == 0 {
+			if len(load.Results(t)) == 0 {
 				return false
 			}
-			last := t.Results[len(t.Results)-1]
+			last := load.Results(t)[len(load.Results(t))-1]
 			if last.Type().String() != "error" {
 				return false
 			}
@@ -118,8 +118,8 @@ func C16label(p *load.Program, run *report.Run) {
 			want := idx == 1
 			okVal, seen := true, false
 			tb := b.Succs[0]
-			if ret, ok := tb.Instrs[len(tb.Instrs)-1].(*ssa.Return); ok && len(ret.Results) == 2 {
-				if c, ok := ret.Results[0].(*ssa.Const); ok && c.Value != nil && c.Value.Kind() == constant.Bool {
+			if ret, ok := tb.Instrs[len(tb.Instrs)-1].(*ssa.Return); ok && len(load.Results(ret)) == 2 {
+				if c, ok := load.Results(ret)[0].(*ssa.Const); ok && c.Value != nil && c.Value.Kind() == constant.Bool {
 					seen = true
 					okVal = constant.BoolVal(c.Value) == want
 				}
